@@ -365,10 +365,12 @@ deriving Repr
 def isAuthoritative (v : View) (q : Bytes) : R Cut :=
   if v.v2 then isAuthoritativeV2 v q else isAuthoritativeV1 v (q.length + 1) q false false
 
-/-- does the group list / RR lists hold an A/AAAA record of exactly this owner name (`HasRecord`
-compares the presentation strings, i.e. case-sensitively) -/
+/-- does the group list / RR lists hold an A/AAAA record of this owner name (`HasRecord` compares
+the presentation strings with `strings.EqualFold`: case-insensitively, since the repair; before it
+the comparison was exact, so the additional section depended on the spelling the client used) -/
 def hasAddr (answerAddrs : List AddrGroup) (name : Bytes) (t : Nat) (extra : List AddrGroup) : Bool :=
-  (answerAddrs ++ extra).any fun g => g.name = name ∧ g.type = t ∧ (g.cands.any fun c => c.weight > 0)
+  (answerAddrs ++ extra).any fun g =>
+    toLower g.name = toLower name ∧ g.type = t ∧ (g.cands.any fun c => c.weight > 0)
 
 /-- `ServeDNSWithRCODE` after the location step, cache disabled, OPT handled by the caller -/
 def serve (v : View) (q : Query) : Outcome :=
